@@ -36,7 +36,7 @@ let () =
         let iclass, idetail = !res in
         bump ("op." ^ kind ^ "." ^ iclass);
         bump "steps";
-        if kind = "FUND" then () else
+        if kind = "FUND" || kind = "LOCK" then () else
         if kind = "QUERY" then begin
           (try
             let pre = build_state ~switch:!switch ~listeners:!listeners !pre_lines in
